@@ -1,4 +1,4 @@
-FIX_COMMITS = ['81ddff2', '385433c', 'cc971f4', 'bbe6c99', 'bc82b1c', '737bbcb', '381eb2a', 'f3c4e1a', '36238bb', '91307a4', '71b6bdf', '4a011ec']
+FIX_COMMITS = ['81ddff2', '385433c', 'cc971f4', 'bbe6c99', 'bc82b1c', '737bbcb', '381eb2a', 'f3c4e1a', '36238bb', '91307a4', '71b6bdf', '4a011ec', '029d212']
 NOTES = 'Contract-based deductive verification of the real code: see DESIGN.md. exit 2 of a check means undecided (lost anchor / unsupported construct / resource limit), never an alarm.'
 CHECKS = {
     'C11': {
@@ -99,9 +99,14 @@ CHECKS['C01'] = {
     'note': 'process_message itself is unverified (bounded executions only); default SyncConfig only; redb-backed store only.',
     'technique': TECH + '; bounded stand-in for process_message',
 }
+CHECKS['C06'] = {
+    'text': 'Partial claim (commit placement and flush), proved for all inputs and all clock readings on the real text with Verus: the state a reopened store shows after a crash is the contents of the last commit, carried as ghost state Store.committed. Every store operation under contract - in particular ranger::Store::put with its three store accesses (prefixes_of, remove_prefix_filtered, entry_put), remove_replica, import_namespace, register_useful_peer, set_download_policy and the read paths - satisfies: the durable contents afterwards are either unchanged or exactly the contents the operation started from, for every placement of the age-based commit (the shells of Store::tables/modify allow a commit at every access; modify_continue never commits; these shell contracts are proved on the real Store::{tables, modify, modify_continue, modify_impl, flush, snapshot, snapshot_owned} in U-tx). Hence no commit can expose a half-applied insert, and flush makes everything acknowledged durable. What a contract cannot reach - that redb really persists a commit atomically and recovers the last commit from a file image taken at any instant - is trusted; a bounded stand-in (labelled bounded, not counted) images the database file at every commit placement inside one prefix-deleting insert on a persistent store and reopens it.',
+    'design_ref': 'DESIGN.md sections 0.4 (C06) and 6 (D16)',
+    'note': 'Trusted: redb commit atomicity and crash recovery (A-redb-commit); the crash instant is represented by ghost state, not enumerated. Not covered: actor idle flush, index agreement after prefix deletion (dangling index rows are tolerated by design), operations spanning several puts.',
+    'technique': TECH + '; ghost commit state on the store shell; bounded stand-in for redb reopening',
+}
 NOT_APPLICABLE = {
     'C04': 'statement over interleavings/histories of 2..5 replicas with lossy gossip and restarts; no function or data structure whose contract expresses it',
-    'C06': 'needs crash points, redb recovery semantics and wall-clock commit placement; none of these is an input of any function, redb is a trusted dependency',
 }
 for _p in ['C02','C03','C05','C07','C08','C09','C10','C12','C13','C15','C16','C17','C18']:
     NOT_APPLICABLE.setdefault(_p, 'not yet claimed: units under construction (see DESIGN.md section 5)')
